@@ -97,6 +97,31 @@ impl ADoc {
         false
     }
 
+    /// drop fragments no operation reaches
+    pub fn prune_unreachable(&mut self) {
+        fn walk(sels: &[ASel], frags: &[AFrag], seen: &mut Vec<String>) {
+            for s in sels {
+                match s {
+                    ASel::Field { sub, .. } | ASel::Inline { sub, .. } => walk(sub, frags, seen),
+                    ASel::Spread { name } => {
+                        if !seen.contains(name) {
+                            seen.push(name.clone());
+                            if let Some(f) = frags.iter().find(|f| &f.name == name) {
+                                walk(&f.sels, frags, seen);
+                            }
+                        }
+                    }
+                    ASel::Typename => {}
+                }
+            }
+        }
+        let mut reachable = Vec::new();
+        for op in &self.ops {
+            walk(&op.sels, &self.frags, &mut reachable);
+        }
+        self.frags.retain(|f| reachable.contains(&f.name));
+    }
+
     pub fn render(&self) -> String {
         let mut out = String::new();
         for op in &self.ops {
